@@ -31,13 +31,22 @@ def gen_case(rng, tier, k):
     mm = rng.choice([100000] * 4 + [0, 1, 2, 3, 4])
     nops = rng.randint(2, 7 if tier == "quick" else 12)
     ops = gen_ops(rng, nops, allow_skip=False)
+    if rng.random() < 0.15:
+        # size-limited block expansion with the source-node shortcut (inputs at the root, variables that become inputs
+        # inside a trap space): the limit can hit while a node's valuations are being attached
+        bnet = common.g_idtrap(rng, nmax) if rng.random() < 0.5 else common.free_inputs(rng, common.g_chains(rng, total_max=nmax, kind="input")) if rng.random() < 0.3 else common.g_chains(rng, total_max=nmax, kind="input")
+        ops = ops[:rng.randint(0, 2)] + [["blockx", rng.random() < 0.5, rng.choice([1, 2, 3, 4, 5, 6, 8]), True, False]] + ops[2:4]
     if rng.random() < 0.4:
         j = rng.randrange(len(ops))
         ops[j] = ops[j] + [{"fail_at": rng.randint(1, 4)}]
     if mm < 100000 and rng.random() < 0.6:
         # the limit is relaxed on the same diagram after (possibly) hitting it
         ops.insert(rng.randint(1, len(ops)), ["setmm", rng.choice([100000, 100000, mm + 1, mm + 2])])
-    return {"bnet": bnet, "max_motifs": mm, "ops": ops, "final_full": True, "judge_contract": True}
+    # "resume = uninterrupted run" is claimed for bfs/dfs/minimal-space/attractor-seed/target expansion only: a diagram that
+    # went through the source-node shortcut has valuation children instead of stable-motif children by design
+    shortcut = any(op[0] == "blockx" and op[3] for op in ops)
+    return {"bnet": bnet, "max_motifs": mm, "ops": ops, "final_full": not shortcut, "judge_contract": True,
+            "check": "weak" if shortcut else True}
 
 
 def run_case(case):
